@@ -1502,11 +1502,95 @@ func checkTree(r *mon.Run, i int, bins *binaries, inBinarySample bool) {
 	tc.determinism(v)
 	files := tc.singleFiles(prng)
 	tc.multiSource(prng, files)
+	tc.carryOver(prng)
 
 	if i < 40 {
 		if want, names, err := refDir(tb, v.dir); err == nil && len(names) >= 2 && len(tc.orig) >= 7 && len(want) < 1500 {
 			r.Sample("tree", map[string]any{"index": i, "table": tb, "entries": tc.orig, "eligible_in_order": names, "expected_payload": head(want)})
 		}
+	}
+}
+
+// carryOver: "the result is the same on every call while the files are
+// unchanged" and it is always the conversion of the files as they are now -
+// whatever the same process converted before: (1) a build of another directory
+// that FAILED half-way (a dangling link with an eligible name sorting last) must
+// leave nothing behind for the next build; (2) after an edit that keeps a
+// file's size and modification time (cp -p, rsync -t, a deploy tool restoring
+// timestamps) the payload must be built from the new content.
+func (tc *treeCheck) carryOver(rng *rand.Rand) {
+	v := tc.v
+	want, names, err := refDir(tc.tb, v.dir)
+	if err != nil || len(names) == 0 {
+		return
+	}
+	// (1) poison directory: copies of two eligible files plus a dangling eligible link
+	poison := filepath.Join(tc.base, "poison-dir")
+	if os.MkdirAll(poison, 0o755) == nil {
+		for k, n := range names {
+			if k >= 2 {
+				break
+			}
+			if b, err := os.ReadFile(filepath.Join(v.dir, n)); err == nil {
+				os.WriteFile(filepath.Join(poison, n), b, 0o644)
+			}
+		}
+		os.Symlink("no-such-target-"+fmt.Sprint(tc.i), filepath.Join(poison, "~~~~"+names[len(names)-1]))
+		_, perr := tc.conv.From(poison) // may fail or not: not judged (the statement does not cover this directory)
+		if perr != nil {
+			tc.count("failed_builds_before_a_rebuild", 1)
+		}
+		for _, c := range []*shellfuncsfile.Converter{tc.conv, install(tc.tb)} {
+			got, err := c.From(v.dir)
+			tc.count("from_calls", 1)
+			tc.count("rebuilds_after_other_directory", 1)
+			if err != nil || !bytes.Equal(got, want) {
+				tc.violate("state-carried-over-from-earlier-build", fmt.Sprintf("after the same process had converted another directory (result: %v), converting the unchanged directory gives a different payload (%v)", perr, err), map[string]any{"expected": head(want), "got": head(got)})
+				return
+			}
+		}
+	}
+	// (2) same-size, same-mtime edit of one eligible plain file
+	for _, e := range v.top {
+		if e.Kind != kFile || e.dot() || tc.tb.first(e.Name) == nil {
+			continue
+		}
+		p := filepath.Join(v.dir, e.Name)
+		fi, err := os.Stat(p)
+		b, err2 := os.ReadFile(p)
+		if err != nil || err2 != nil || len(b) < 3 {
+			continue
+		}
+		k := 1 + rng.IntN(len(b)-2)
+		if b[k] == '\n' || b[k] == '\'' || b[k] == '"' || b[k] == '\\' || b[k] == '#' {
+			continue
+		}
+		nb := bytes.Clone(b)
+		if nb[k] == 'Z' {
+			nb[k] = 'Y'
+		} else {
+			nb[k] = 'Z'
+		}
+		if os.WriteFile(p, nb, fi.Mode().Perm()) != nil || os.Chtimes(p, fi.ModTime(), fi.ModTime()) != nil {
+			continue
+		}
+		want2, _, err := refDir(tc.tb, v.dir)
+		if err != nil {
+			break
+		}
+		got, err := tc.conv.From(v.dir)
+		tc.count("from_calls", 1)
+		tc.count("stealth_edits_checked", 1)
+		if err != nil || !bytes.Equal(got, want2) {
+			key := "stale-after-same-size-same-mtime-edit"
+			if err == nil && !bytes.Equal(got, want) {
+				key = "payload-mismatch-after-edit"
+			}
+			tc.violate(key, fmt.Sprintf("file %q was rewritten with different content of the same length and its modification time restored; the payload built afterwards does not reflect the new content (%v)", e.Name, err), map[string]any{"expected": head(want2), "got": head(got)})
+		}
+		os.WriteFile(p, b, fi.Mode().Perm())
+		os.Chtimes(p, fi.ModTime(), fi.ModTime())
+		break
 	}
 }
 
